@@ -202,6 +202,14 @@ fn verify_case(
                 let r = guard(|| {
                     let mut d = Distinfo::new();
                     d.insert(Entry::new(name, &link2, vec![Checksum::new(digest_of(algo), recorded_hash.to_string())], if nosize { None } else { recorded_size }));
+                    // ... and the entry verified against the store file itself, whose name says nothing
+                    // about its kind: the entry (a patch or not) decides which digest applies
+                    let direct = d.find_entry(&link2).ok().map(|e| (e.verify_checksum(&blob, digest_of(algo)).map(|d| d.to_string()).map_err(|e| err_json(&e)), e.verify_checksums(&blob).into_iter().map(|r| r.is_ok()).collect::<Vec<_>>()));
+                    if let Some((dv, dall)) = &direct {
+                        if dv.is_ok() != (recorded_hash == truth) || dall != &vec![recorded_hash == truth] {
+                            return (false, Err(json!({"Entry::verify_checksum on the store file": format!("{:?} {:?}", dv, dall)})), Err(json!("n/a")));
+                        }
+                    }
                     (d.find_entry(&link2).is_ok(), d.verify_checksum(&link2, digest_of(algo)).map(|d| d.to_string()).map_err(|e| err_json(&e)), d.verify_size(&link2).map_err(|e| err_json(&e)))
                 });
                 let _ = std::fs::remove_file(&link2);
